@@ -201,7 +201,7 @@ func TestVerif_C16_h2frames(t *testing.T) {
 	need := map[string]int{}
 	count := func(b string) { s.Count(b); need[b]++ }
 	// ---- raw blocks
-	nraw := verifh.N(700, 12000)
+	nraw := verifh.N(700, 6000)
 	for i := 0; i < nraw; i++ {
 		mf := verifh.Pick(r, c16FrameSizes)
 		kmax := 4
@@ -256,7 +256,7 @@ func TestVerif_C16_h2frames(t *testing.T) {
 		s.Case(fmt.Sprintf("c16hframes %d %d %s %s", n, mf, verifh.C01B(hasPrio), verifh.C01B(es)), ans, ok, "", len(frames) > 0, human)
 	}
 	// ---- whole requests
-	nreq := verifh.N(450, 8000)
+	nreq := verifh.N(450, 4000)
 	for i := 0; i < nreq; i++ {
 		profile := "plain"
 		if r.Intn(2) == 0 {
